@@ -163,6 +163,7 @@ type connPlan struct {
 	shutdown       bool
 	fastforward    bool
 	backoffStop    int // reconnect backoff gives Stop after this many retries (0: never)
+	slowDial       bool // a dial in progress completes only when nothing else can run
 }
 
 func genConnPlan(g *prng) connPlan {
@@ -202,6 +203,7 @@ func genConnPlan(g *prng) connPlan {
 	if g.chance(1, 6) {
 		p.backoffStop = 1 + g.intn(2)
 	}
+	p.slowDial = g.chance(1, 3)
 	return p
 }
 
@@ -225,6 +227,9 @@ func runConn(g *prng, p connPlan) (hist []string, steps int) {
 	if g.chance(1, 3) {
 		r.pct = map[string]int{}
 	}
+	if p.slowDial {
+		r.lazySites = map[string]bool{"@dial": true, "@onconnect": true}
+	}
 	st := &scriptTransport{r: r, dials: p.dials}
 	sh := &scriptHandler{r: r, onconnect: p.onconnect}
 	mkProt := func(name string) Protocol {
@@ -244,6 +249,9 @@ func runConn(g *prng, p connPlan) (hist []string, steps int) {
 	}
 	r.ev("cfg dcn=%v fib=%v delay=%d window=%d stop=%d", p.dontConnectNow, p.forceInitial,
 		int64(p.firstDelay/time.Millisecond), int64(p.window/time.Millisecond), p.backoffStop)
+	if p.slowDial {
+		r.ev("slowdial")
+	}
 	var conn *Connection
 	start := time.Now()
 	now := func() int64 { return int64(time.Since(start) / time.Millisecond) }
